@@ -132,7 +132,7 @@ Fixpoint pp (e : expr) : str :=
   end.
 
 (** * The tree CPython parses from [pp e] *)
-Inductive tok := TAtom (e : expr) | TOp (o : bop) | TNot | TCmp (c : cmpop).
+Inductive tok := TAtom (e : expr) | TOp (o : bop) | TNot | TCmp (c : cmpop) | TDiv.
 
 Fixpoint split_on (o : bop) (ts cur : list tok) : list (list tok) :=
   match ts with
@@ -140,15 +140,28 @@ Fixpoint split_on (o : bop) (ts cur : list tok) : list (list tok) :=
   | TOp o' :: r => if bop_eqb o o' then rev cur :: split_on o r [] else split_on o r (TOp o' :: cur)
   | t :: r => split_on o r (t :: cur)
   end.
-Fixpoint parse_targets (ts : list tok) : list (cmpop * expr) :=
+(** operand of a comparison: atom (// atom)*, left associative *)
+Fixpoint parse_arith (acc : expr) (ts : list tok) : expr :=
   match ts with
-  | TCmp c :: TAtom b :: r => (c, b) :: parse_targets r
-  | _ => []
+  | TDiv :: TAtom b :: r => parse_arith (EFloorDiv acc b) r
+  | _ => acc                 (* anything else is not produced by well-formed trees *)
+  end.
+Definition parse_operand (ts : list tok) : expr :=
+  match ts with
+  | TAtom a :: r => parse_arith a r
+  | _ => EConst CNone        (* not produced by well-formed trees *)
+  end.
+Fixpoint split_cmp (ts cur : list tok) : list tok * list (cmpop * list tok) :=
+  match ts with
+  | [] => (rev cur, [])
+  | TCmp c :: r => let fr := split_cmp r [] in (rev cur, (c, fst fr) :: snd fr)
+  | t :: r => split_cmp r (t :: cur)
   end.
 Definition parse_cmp (ts : list tok) : expr :=
-  match ts with
-  | TAtom a :: r => match parse_targets r with [] => a | tg => ECmp true a tg end
-  | _ => EConst CNone        (* not produced by well-formed trees *)
+  let fr := split_cmp ts [] in
+  match snd fr with
+  | [] => parse_operand (fst fr)
+  | tg => ECmp true (parse_operand (fst fr)) (map (fun cr => (fst cr, parse_operand (snd cr))) tg)
   end.
 Fixpoint parse_inv (ts : list tok) : expr :=
   match ts with
@@ -177,7 +190,7 @@ Fixpoint toks (e : expr) : list tok :=
                                           match rs with [] => [] | (c, b) :: t => TCmp c :: toks b ++ go t end) rest)
   | EListComp elt x it => [TAtom (EListComp (parse_disj (toks elt)) x (parse_disj (toks it)))]
   | EGen _ elt x it => [TAtom (EGen true (parse_disj (toks elt)) x (parse_disj (toks it)))]
-  | EFloorDiv l r => [TAtom (EFloorDiv (parse_disj (toks l)) (parse_disj (toks r)))]
+  | EFloorDiv l r => [TAtom (parse_disj (toks l ++ TDiv :: toks r))]
   | EJuxt n a => [TAtom (EJuxt n (parse_disj (toks a)))]
   end.
 Definition norm (e : expr) : expr := parse_disj (toks e).
@@ -222,7 +235,7 @@ Fixpoint paren_safe_at (top : bool) (e : expr) : bool :=
                      (fix go (rs : list (cmpop * expr)) : bool :=
                         match rs with [] => true | (_, b) :: t => closed b && paren_safe_at false b && go t end) rest
   | EListComp elt _ it | EGen _ elt _ it => paren_safe_at true elt && paren_safe_at true it
-  | EFloorDiv l r => paren_safe_at true l && paren_safe_at true r
+  | EFloorDiv l r => closed l && closed r && paren_safe_at false l && paren_safe_at false r
   | EJuxt _ a => paren_safe_at true a
   end.
 Definition paren_safe (e : expr) : bool := paren_safe_at true e.
@@ -281,7 +294,7 @@ Fixpoint wf (e : expr) : bool :=
                      (fix go (rs : list (cmpop * expr)) : bool :=
                         match rs with [] => true | (_, b) :: t => wf b && gen_par b && negb (starts_with_not b) && go t end) rest
   | EListComp elt _ it | EGen _ elt _ it => wf elt && gen_par elt && wf it && gen_par it
-  | EFloorDiv l r => wf l && gen_par l && wf r && gen_par r
+  | EFloorDiv l r => wf l && gen_par l && wf r && gen_par r && negb (starts_with_not r)
   | EJuxt _ _ => false
   end.
 
